@@ -179,7 +179,7 @@ theorem fold_set_get (f : Nat → Val) (d : List Val) : ∀ m i,
       by_cases h2 : m < d.length
       · simp [h2]
       · have h2' : d.length ≤ m := by omega
-        simp [h2, List.getElem?_eq_none h2']
+        simp [h2]
     · rw [if_neg h1]
       by_cases h3 : i < d.length
       · by_cases h4 : i < m
@@ -202,7 +202,7 @@ theorem init_default (cls : Nat) (names : List String) (defaults : List Val) (hd
     rfl
 
 theorem init_eq (cls : Nat) (names : List String) (defaults args : List Val) (kwargs : List (String × Val))
-    (hd : defaults.length = names.length) (ha : args.length ≤ names.length) :
+    (hd : defaults.length = names.length) (_ha : args.length ≤ names.length) :
     init cls names defaults args kwargs =
       kwargs.foldl (fun (x : Inst) (kv : String × Val) =>
           match indexOf names kv.1 with | some i => x.set i kv.2 | none => x)
@@ -228,5 +228,177 @@ theorem init_eq (cls : Nat) (names : List String) (defaults args : List Val) (kw
     rw [List.getElem?_eq_none (l := List.range _) (by simpa using h'), if_neg (by omega),
       List.getElem?_eq_none (by omega)]
     rfl
+
+/-! ### Assigning a field: the dumped bytes change only inside the field's extent
+
+  `nTy` / `setV` are the same functions as `nthTy` / `setNthV` of `Proofs/C17.lean`, which this file cannot see. -/
+
+def nTy : Fields → Nat → Option Ty
+  | .nil, _ => none
+  | .cons _ _ t _ _, 0 => some t
+  | .cons _ _ _ _ r, k + 1 => nTy r k
+
+def setV : Vals → Nat → Val → Vals
+  | .nil, _, _ => .nil
+  | .cons _ r, 0, v => .cons v r
+  | .cons a r, k + 1, v => .cons a (setV r k v)
+
+/-- any function satisfying the defining equations of `nTy` is `nTy` -/
+theorem nTy_unique (f : Fields → Nat → Option Ty) (h0 : ∀ k, f .nil k = none)
+    (h1 : ∀ n a t b r, f (.cons n a t b r) 0 = some t)
+    (h2 : ∀ n a t b r k, f (.cons n a t b r) (k + 1) = f r k) : ∀ (fs : Fields) (k : Nat), f fs k = nTy fs k
+  | .nil, k => by rw [h0]; rfl
+  | .cons n a t b r, 0 => by rw [h1]; rfl
+  | .cons n a t b r, k + 1 => by rw [h2, nTy_unique f h0 h1 h2 r k]; rfl
+
+theorem setV_unique (f : Vals → Nat → Val → Vals) (h0 : ∀ k v, f .nil k v = .nil)
+    (h1 : ∀ a r v, f (.cons a r) 0 v = .cons v r)
+    (h2 : ∀ a r k v, f (.cons a r) (k + 1) v = .cons a (f r k v)) : ∀ (vs : Vals) (k : Nat) (v : Val),
+    f vs k v = setV vs k v
+  | .nil, k, v => by rw [h0]; rfl
+  | .cons a r, 0, v => by rw [h1]; rfl
+  | .cons a r, k + 1, v => by rw [h2, setV_unique f h0 h1 h2 r k v]; rfl
+
+/-- the field loop: both outputs exist, have the same length, and agree outside the assigned member's extent
+    (`i` is relative to the loop's start offset `o`) -/
+theorem assign_fields (cfg : Cfg) (al : Bool) : ∀ (fs : Fields), Fields.fragS cfg fs = true →
+    Fields.uniformAlign al fs = true → fs.pow2Aligned cfg → ∀ vs, HasTys cfg vs fs →
+    ∀ (k : Nat) (t : Ty), nTy fs k = some t → ∀ v, HasTy cfg v t → ∀ (start o : Nat),
+    (al = true → allAlignDvd cfg start fs) → ∀ (off n : Nat), (offsS cfg al fs o)[k]? = some (some off) →
+    t.size cfg = some n →
+    ∃ out1 out2,
+      writeFields cfg al fs (offsS cfg al fs o) vs start BitBuf.empty (start + o) = .ok (out1, BitBuf.empty) ∧
+      writeFields cfg al fs (offsS cfg al fs o) (setV vs k v) start BitBuf.empty (start + o) = .ok (out2, BitBuf.empty) ∧
+      o + out1.length = endOff cfg al fs o ∧ o + out2.length = endOff cfg al fs o ∧ o ≤ off ∧
+      ∀ i, (o + i < off ∨ off + n ≤ o + i) → out1[i]? = out2[i]?
+  | .nil, _, _, _, _, _, k, t, ht, _, _, _, _, _, _, _, _, _ => by simp [nTy] at ht
+  | .cons name an ty bits rest, hS, hU, hP, vs, hvs, k, t, ht, v, hv, start, o, hdv, off, n, hoff, hn => by
+    simp only [Fields.fragS, Bool.and_eq_true, Option.isNone_iff_eq_none] at hS
+    obtain ⟨⟨rfl, hS1⟩, hS2⟩ := hS
+    simp only [Fields.uniformAlign, Bool.and_eq_true] at hU
+    simp only [Fields.pow2Aligned] at hP
+    cases hvs with
+    | @cons v0 vs' _ _ _ _ hv0 hvs' =>
+      have hfa := alignment_p2 cfg ty hP.1
+      have hle := le_alignTo al o (ty.alignment cfg)
+      have hpos : al = true → sAlign cfg ty ∣ start + alignTo al o (ty.alignment cfg) := by
+        intro ha; subst ha
+        have h1 := (hdv rfl).1
+        exact Nat.dvd_trans (sAlign_dvd_alignment cfg ty) (Nat.dvd_add h1 (alignTo_dvd hfa o))
+      obtain ⟨bs, sz, w, s, l, _⟩ := wr_ty cfg al ty hS1 hU.1 hP.1 v0 hv0 _ hpos
+      simp only [offsS, s, Option.getD_some] at hoff ⊢
+      simp only [endOff, s, Option.getD_some]
+      generalize hfo : alignTo al o (ty.alignment cfg) = fo at *
+      have hpad : (if start + o < start + fo then start + fo - (start + o) else 0) = fo - o := by
+        split <;> omega
+      have e1 : start + o + (fo - o) = start + fo := by omega
+      cases k with
+      | zero =>
+        simp only [nTy, Option.some.injEq] at ht
+        subst ht
+        simp only [List.getElem?_cons_zero, Option.some.injEq] at hoff
+        subst hoff
+        obtain rfl : sz = n := by rw [s] at hn; exact Option.some.inj hn
+        obtain ⟨bs', sz', w2, s2, l2, _⟩ := wr_ty cfg al ty hS1 hU.1 hP.1 v hv _ hpos
+        rw [s] at s2; cases s2
+        obtain ⟨out', w', l', _⟩ := wr_fields cfg al rest hS2 hU.2 hP.2 vs' hvs' start (fo + sz) (fun ha => (hdv ha).2)
+        have e2 : ∀ b : Bytes, b.length = sz → start + o + (zeros (fo - o) ++ b).length = start + (fo + sz) := by
+          intro b hb
+          simp only [List.length_append, zeros, List.length_replicate, hb]; omega
+        refine ⟨zeros (fo - o) ++ bs ++ out', zeros (fo - o) ++ bs' ++ out', ?_, ?_, ?_, ?_, hle, ?_⟩
+        · rw [writeFields_cons_S, hpad, e1, w]
+          simp only [Except.bind]
+          rw [e2 bs l, w']
+        · simp only [setV]
+          rw [writeFields_cons_S, hpad, e1, w2]
+          simp only [Except.bind]
+          rw [e2 bs' l2, w']
+        · simp only [List.length_append, zeros, List.length_replicate, l]; omega
+        · simp only [List.length_append, zeros, List.length_replicate, l2]; omega
+        · intro i hi
+          have hz : (zeros (fo - o)).length = fo - o := by simp [zeros]
+          rcases hi with hi | hi
+          · rw [List.append_assoc, List.append_assoc, List.getElem?_append_left (by omega),
+              List.getElem?_append_left (by omega)]
+          · rw [List.getElem?_append_right (by simp only [List.length_append, hz, l]; omega),
+              List.getElem?_append_right (by simp only [List.length_append, hz, l2]; omega)]
+            simp only [List.length_append, hz, l, l2]
+      | succ k =>
+        simp only [nTy] at ht
+        simp only [List.getElem?_cons_succ] at hoff
+        obtain ⟨o1, o2, w1, w2, l1, l2, hle', hag⟩ := assign_fields cfg al rest hS2 hU.2 hP.2 vs' hvs' k t ht v hv start
+          (fo + sz) (fun ha => (hdv ha).2) off n hoff hn
+        have e2 : start + o + (zeros (fo - o) ++ bs).length = start + (fo + sz) := by
+          simp only [List.length_append, zeros, List.length_replicate, l]; omega
+        refine ⟨zeros (fo - o) ++ bs ++ o1, zeros (fo - o) ++ bs ++ o2, ?_, ?_, ?_, ?_, by omega, ?_⟩
+        · rw [writeFields_cons_S, hpad, e1, w]
+          simp only [Except.bind]
+          rw [e2, w1]
+        · simp only [setV]
+          rw [writeFields_cons_S, hpad, e1, w]
+          simp only [Except.bind]
+          rw [e2, w2]
+        · simp only [List.length_append, zeros, List.length_replicate, l]; omega
+        · simp only [List.length_append, zeros, List.length_replicate, l]; omega
+        · intro i hi
+          have hz : (zeros (fo - o) ++ bs).length = fo - o + sz := by
+            simp only [List.length_append, zeros, List.length_replicate, l]
+          by_cases hlt : i < fo - o + sz
+          · rw [List.getElem?_append_left (l₂ := o1) (by omega), List.getElem?_append_left (l₂ := o2) (by omega)]
+          · rw [List.getElem?_append_right (l₂ := o1) (by omega), List.getElem?_append_right (l₂ := o2) (by omega), hz]
+            apply hag
+            omega
+
+theorem hasTys_setV (cfg : Cfg) : ∀ (fs : Fields) (vs : Vals), HasTys cfg vs fs → ∀ (k : Nat) (t : Ty),
+    nTy fs k = some t → ∀ v, HasTy cfg v t → HasTys cfg (setV vs k v) fs
+  | .nil, _, _, k, t, ht, _, _ => by simp [nTy] at ht
+  | .cons _ _ ty _ rest, _, .cons hv0 hvs', 0, t, ht, v, hv => by
+    simp only [nTy, Option.some.injEq] at ht
+    subst ht
+    exact .cons hv hvs'
+  | .cons _ _ ty _ rest, _, .cons hv0 hvs', k + 1, t, ht, v, hv => by
+    simp only [nTy] at ht
+    exact .cons hv0 (hasTys_setV cfg rest _ hvs' k t ht v hv)
+
+/-- `c17_assign_local` with this file's copies of the member lookup / update -/
+theorem assign_local (cfg : Cfg) (al : Bool) (fs : Fields) (hS : (Ty.struct al fs).fragS cfg = true)
+    (hu : (Ty.struct al fs).uniformAlign al = true) (hp : (Ty.struct al fs).pow2Aligned cfg)
+    (vs : Vals) (hv : HasTy cfg (.record vs) (.struct al fs)) (k : Nat) (t : Ty) (ht : nTy fs k = some t) (v : Val)
+    (hvk : HasTy cfg v t) (off n : Nat) (offs : List (Option Nat)) (sz : Option Nat) (a : Nat)
+    (hl : structLayout cfg al fs = .ok (sz, a, offs)) (hoff : offs[k]? = some (some off)) (hn : t.size cfg = some n) :
+    ∃ b1 b2, dumps cfg (.struct al fs) (.record vs) = .ok b1 ∧
+      dumps cfg (.struct al fs) (.record (setV vs k v)) = .ok b2 ∧
+      b1.length = b2.length ∧ ∀ i, (i < off ∨ off + n ≤ i) → b1[i]? = b2[i]? := by
+  simp only [Ty.fragS] at hS
+  simp only [Ty.uniformAlign, Bool.and_eq_true, beq_iff_eq] at hu
+  simp only [Ty.pow2Aligned] at hp
+  cases hv with
+  | @struct _ _ _ hvs =>
+    rw [structLayout_S cfg al fs hS] at hl
+    cases hl
+    have hdv : al = true → allAlignDvd cfg 0 fs :=
+      fun _ => allAlignDvd_of_sAlign cfg al fs hp 0 (Nat.dvd_zero _)
+    obtain ⟨o1, o2, w1, w2, l1, l2, _, hag⟩ := assign_fields cfg al fs hS hu.2 hp vs hvs k t ht v hvk 0 0 hdv off n hoff hn
+    simp only [Nat.add_zero, Nat.zero_add] at w1 w2 l1 l2 hag
+    generalize hM : Fields.maxAlign cfg fs 0 = M at *
+    generalize hE : endOff cfg al fs 0 = E at *
+    refine ⟨if al then o1 ++ zeros (padNat (0 + o1.length) M) else o1,
+      if al then o2 ++ zeros (padNat (0 + o2.length) M) else o2, ?_, ?_, ?_, ?_⟩
+    · unfold dumps
+      rw [write_struct, structLayout_S cfg al fs hS]
+      simp only [Except.bind, w1, flushBits_empty, List.append_nil, hM]
+    · unfold dumps
+      rw [write_struct, structLayout_S cfg al fs hS]
+      simp only [Except.bind, w2, flushBits_empty, List.append_nil, hM]
+    · cases al <;> simp [l1, l2]
+    · intro i hi
+      cases al with
+      | false => simpa using hag i hi
+      | true =>
+        simp only [if_true, l1, l2]
+        by_cases hlt : i < E
+        · rw [List.getElem?_append_left (l₂ := zeros _) (by omega), List.getElem?_append_left (l₂ := zeros _) (by omega)]
+          exact hag i hi
+        · rw [List.getElem?_append_right (l₂ := zeros _) (by omega), List.getElem?_append_right (l₂ := zeros _) (by omega), l1, l2]
 
 end Cstruct.C17.Lemmas
